@@ -5,6 +5,7 @@
    concurrent lookups vs UpdateHosts validated with the publish hooks."""
 import json, os, re
 import vlib
+import lbscan_part
 
 LEVEL = "model_checking"
 
@@ -85,6 +86,8 @@ def run(ctx):
                 fail(line, k)
         if v["matched"] is not None and v["matched"] < len(evs):
             fail(v["matched"] + 1, "trace-rejected:" + evs[v["matched"]]["ev"])
+    # concurrent lookups on one balancer object, stepped through TLC-enumerated interleavings (LBScan.tla)
+    lbscan_part.run_part(ctx, "C05")
     ctx.cov["distinct_nontrivial"] = len(seen) * 8
     ctx.cov["rule"] = ("every operation history of length MaxOps ending in choose over SetHosts(any member set, any healthy subset)/"
                        "Flip/Choose enumerated by TLC from LBChoice, replayed for each of the 8 policies; each choose = N real "
